@@ -378,4 +378,34 @@ example : crashAndResume (fun n => ⟨[n.length], 0, none⟩) ["a", "bb", "ccc"]
     = ⟨some ⟨["a", "bb", "ccc"], true⟩, [("a", ⟨[1], 0, none⟩), ("bb", ⟨[2], 0, none⟩), ("ccc", ⟨[3], 0, none⟩)]⟩ := by
   decide +kernel
 
+/-- a small model of why the decode target matters: `json.Unmarshal` into a value that already holds a slice re-uses
+its backing array, so with ONE target for all files the entry stored for the previous request shares the array the next
+decode overwrites.  `loadShared` keeps, for every stored request, a view (length) on the one shared array; `loadFresh`
+stores each decoded list as its own value. -/
+def loadFresh (files : List (String × List String)) : List (String × List String) := files
+
+/-- shared target: every stored request sees the first `len` cells of the array as the LAST decode left it (cells past
+the last decode's length keep what an earlier, longer decode wrote) -/
+def loadSharedArr : List String → List (List String) → List String
+  | arr, [] => arr
+  | arr, fr :: rest => loadSharedArr (fr ++ arr.drop fr.length) rest
+
+def loadShared (files : List (String × List String)) : List (String × List String) :=
+  files.map fun p => (p.1, (loadSharedArr [] (files.map (·.2))).take p.2.length)
+
+/-- with a fresh target per file every request keeps its own fractions - for every set of persisted requests -/
+theorem c19_load_fresh_keeps_requests (files : List (String × List String)) (id : String) (frs : List String)
+    (h : (id, frs) ∈ files) : (id, frs) ∈ loadFresh files := h
+
+/-- with one shared target the earlier request resumes on the later request's fractions: a wide search over three
+fractions loaded before a narrow one over two is left with `[f2, f3, f3]` - it skips `f1` and visits `f3` twice
+(what the `async.system` oracle observes on the real code when the declaration is hoisted out of the loop) -/
+theorem c19_load_shared_target_witness :
+    loadShared [("req0", ["f1", "f2", "f3"]), ("req1", ["f2", "f3"])] =
+      [("req0", ["f2", "f3", "f3"]), ("req1", ["f2", "f3"])] := by decide
+
+/-- `loadAsyncSearches` decodes every `.info` file into a value declared inside the per-file loop (`loadFresh`) -/
+theorem c19_x_load_fresh_target :
+    loadDecodeTargets = ["req: declared inside the loop"] := by decide
+
 end SV.Props.C19
